@@ -150,7 +150,7 @@ def install_determinism_seams() -> None:
 def execute(machine, case: dict) -> Outcome:
     """Run one case with library stdout swallowed and global library state reset."""
     from sim import seams
-    seams.reset_library_state()
+    seams.reset_library_state(getattr(machine, 'RESET_FGD', False))
     old = sys.stdout
     sys.stdout = io.StringIO()
     try:
